@@ -369,6 +369,7 @@ def run(tier):
     ck.sub("keywords with their own spacing row (concrete representative) next to a symbolic token", "E-RX", "holds" if len(found) == nf0 else "flagged",
            queries=q.n - nq0, representatives=sorted(reps_kw.values()), sat_models=len(found) - nf0)
     ck.add_queries("z3", q.n, q.secs)
+    q.report(ck, "token fusing")
     ck.states += q.n
     ck.sub("all token-count plans", "E-RX", "holds" if not found else "flagged", queries=q.n, solver_s=round(q.secs, 1),
            wall_s=round(time.time() - t, 1))
